@@ -252,6 +252,7 @@ def run_sphinx_build(job):
                              freshenv=True, parallel=parallel)
                 cfg_before = repr(sorted(dc.asdict(app.env.myst_config).items(), key=lambda kv: kv[0]))
                 app.build()
+                forked = bool(parallel > 1 and app.is_parallel_allowed("read") and len(app.env.found_docs) > 5)
                 cfg_after = repr(sorted(dc.asdict(app.env.myst_config).items(), key=lambda kv: kv[0]))
         except BaseException as e:  # noqa: BLE001
             return {"error": f"{type(e).__name__}: {e}"[:300], "html": {}, "warnings": [], "config_changed": False}
@@ -264,7 +265,7 @@ def run_sphinx_build(job):
                     t = open(p, encoding="utf8", errors="replace").read()
                     html[os.path.relpath(p, out)] = TIMESTAMP.sub(r"\1", t.replace(src, "<SRC>"))
         warns = sorted(ln.replace(src + os.sep, "").replace(src, "<SRC>") for ln in ADDR.sub(" at 0x?", warning.getvalue()).splitlines() if ln.strip())
-        return {"html": html, "warnings": warns, "config_changed": cfg_before != cfg_after,
+        return {"html": html, "warnings": warns, "config_changed": cfg_before != cfg_after, "parallel_read": forked,
                 "config": ADDR.sub(" at 0x?", cfg_after)[:2000]}
     finally:
         shutil.rmtree(d, ignore_errors=True)
